@@ -3,6 +3,7 @@ Inline tokenizer for mistletoe.
 """
 
 import html
+import html.entities
 import re
 
 
@@ -12,6 +13,23 @@ _markdown_charref = re.compile(r'&(#[0-9]{1,7};'
                                r'|#[xX][0-9a-fA-F]{1,6};'
                                r'|[^\t\n\f <&#;]{1,32};)')
 _stdlib_charref = html._charref
+
+
+def unescape(string):
+    """
+    Like `html.unescape()`, but a named character reference is only decoded if it is
+    one of the HTML5 entity names including its trailing semicolon, as the CommonMark
+    spec requires. (`html.unescape()` also decodes the longest known prefix of an
+    unknown name, e.g. "&notit;" -> "¬it;", and references without a semicolon.)
+    """
+    return _markdown_charref.sub(_replace_charref, string)
+
+
+def _replace_charref(match):
+    ref = match.group(1)
+    if ref[0] == '#' or ref in html.entities.html5:
+        return html.unescape(match.group(0))
+    return match.group(0)
 
 
 def tokenize(string, token_types):
@@ -78,7 +96,7 @@ def make_tokens(tokens, start, end, string, fallback_token):
     prev_end = start
     for token in tokens:
         if token.start > prev_end:
-            t = fallback_token(html.unescape(string[prev_end:token.start]))
+            t = fallback_token(unescape(string[prev_end:token.start]))
             if t is not None:
                 result.append(t)
         t = token.make()
@@ -86,7 +104,7 @@ def make_tokens(tokens, start, end, string, fallback_token):
             result.append(t)
         prev_end = token.end
     if prev_end != end:
-        result.append(fallback_token(html.unescape(string[prev_end:end])))
+        result.append(fallback_token(unescape(string[prev_end:end])))
     return result
 
 
